@@ -382,8 +382,8 @@ def bce_loss_forward(y_pred: np.ndarray, y_true: np.ndarray) -> np.ndarray:
     return loss
 
 def bce_loss_backward(grad: np.ndarray, y_pred: np.ndarray, y_true: np.ndarray) -> np.ndarray:
-    term_0 = -(1 - y_true + epsilon) / ((1 - y_pred) + epsilon)
-    term_1 = (y_true + epsilon) / (y_pred + epsilon)
+    term_0 = -(1 - y_true) / ((1 - y_pred) + epsilon)
+    term_1 = y_true / (y_pred + epsilon)
     loss_grad = -(term_0 + term_1) * grad
     return loss_grad
 
